@@ -313,7 +313,180 @@ def sec_single():
     return total
 
 
-SECTIONS = {"single": sec_single}
+# --------------------------------------------------------------------------------------------- multiple
+def ssigs(sigs):
+    return " ; ".join(srats(x) for x in sigs)
+
+
+def psigs(field):
+    return [prats(x) for x in field.split(";")]
+
+
+def expect_signals(pysigs, extra=None, smart=True):
+    def chk(f):
+        if f[0] != "ok":
+            return "expected ok python=%s" % (pysigs,)
+        fields = f[1:]
+        if extra is not None:
+            if fields[0].strip() != extra:
+                return "python lag=%s" % extra
+            fields = fields[1:]
+        got = psigs(fields[0])
+        want = [[fr(x) for x in sg] for sg in pysigs]
+        if got == want:
+            STATS["exact"] += 1
+            return None
+        if not smart or [len(g) for g in got] != [len(w) for w in want]:
+            return "python=%s" % ([[str(x) for x in w] for w in want],)
+        scale = max([abs(x) for w in want for x in w] + [Fr(1)])
+        for g, w in zip(got, want):
+            for a, b in zip(g, w):
+                if abs(a - b) > 1e-13 * scale:
+                    return "python=%s" % ([[str(x) for x in w] for w in want],)
+        STATS["close"] += 1
+        return None
+    return chk
+
+
+def sec_multiple():
+    total = 0
+    from eqsig.fns.time_shift import time_indices
+    # time_indices / get_section_average
+    b = Batch()
+    for npts in (1, 2, 3, 5, 8, 9):
+        for dt in (0.5, 0.25, 1.0, 2.0):
+            for start in (0, 0.25, 0.5, 1.0, 1.75, -0.5, -1.0, 3.0):
+                for end in (-1, 0, 0.5, 1, 1.25, 2.0, 3.75, 4.0, 4.5, -0.5, -2.0):   # NB end=-1.0 (float) -> TypeError in slicing: out of domain
+                    try:
+                        si, ei = time_indices(npts, dt, start, end, False)
+                        b.add("time_indices|%d|%s|%s|%s" % (npts, srat(dt), srat(start), srat(end)),
+                              expect_tokens([[str(si), str(ei)]]))
+                    except Exception as e:
+                        b.add("time_indices|%d|%s|%s|%s" % (npts, srat(dt), srat(start), srat(end)), expect_err(errkind(e)))
+                    if random.random() < 0.35:
+                        v = [27720 * x for x in dyadic(npts)]
+                        sig = eqsig.Signal(np.array(v), dt)
+                        line = "section_average|%s|%s|%s|%s" % (srat(dt), srat(start), srat(end), srats(v))
+                        try:
+                            av = sig.get_section_average(start=start, end=end)
+                            if np.isnan(av):
+                                b.add(line, expect_err("ZeroDivisionError"))
+                            else:
+                                b.add(line, expect_smart([[fr(av)]]))
+                        except Exception as e:
+                            b.add(line, expect_err(errkind(e)))
+        for si in (0, 1, 2, -1, -3, 7):
+            for ei in (-1, 0, 1, 2, 3, npts, npts + 1, -2, 20):
+                v = [27720 * x for x in dyadic(npts)]
+                sig = eqsig.Signal(np.array(v), 0.5)
+                line = "section_average_idx|%d|%d|%s" % (si, ei, srats(v))
+                try:
+                    av = sig.get_section_average(start=si, end=ei, index=True)
+                    if np.isnan(av):
+                        b.add(line, expect_err("ZeroDivisionError"))
+                    else:
+                        b.add(line, expect_smart([[fr(av)]]))
+                except Exception as e:
+                    b.add(line, expect_err(errkind(e)))
+    total += b.run("time_indices/section_average")
+
+    # same_start
+    b = Batch()
+    for nsig in (2, 3, 4):
+        for master in range(nsig):
+            for (dt, start, end) in [(0.5, 0, 1), (0.25, 0, 1), (0.5, 0.5, 2.0), (1.0, 0, -1), (0.5, 0, 10.0), (0.5, 2.0, 1.0),
+                                     (0.5, 1.0, 1.0), (2.0, 0, 1)]:
+                for rep in range(3):
+                    n = random.choice([3, 4, 6, 9])
+                    lens = [n] * nsig if rep < 2 else [random.choice([2, 3, 5, 8, 25]) for _ in range(nsig)]
+                    sigs = [[27720 * x for x in dyadic(m)] for m in lens]
+                    line = "same_start|%s|%d|%s|%s|%s" % (srat(dt), master, srat(start), srat(end), ssigs(sigs))
+                    try:
+                        cl = eqsig.Cluster([np.array(x) for x in sigs], dt, master_index=master)
+                        cl.same_start(start=start, end=end)
+                        out = [cl.values_by_index(i) for i in range(nsig)]
+                        if any(np.any(np.isnan(o)) for o in out):
+                            b.add(line, expect_err("ZeroDivisionError"))
+                        else:
+                            b.add(line, expect_signals(out))
+                    except Exception as e:
+                        b.add(line, expect_err(errkind(e)))
+    total += b.run("same_start")
+
+    # time_match
+    b = Batch()
+
+    def shifted(base, lag):
+        # slave = master delayed by lag (lag>0: slave[k+lag] = master[k]); padding random
+        n = len(base)
+        if lag >= 0:
+            return [random.randint(-3, 3) for _ in range(lag)] + base[:n - lag]
+        return base[-lag:] + [random.randint(-3, 3) for _ in range(-lag)]
+    for nsig in (2, 3, 4):
+        for master in range(nsig):
+            for steps in (0, 1, 2, 3, 5, 10):
+                lags = list(range(-steps + 1, steps)) or [0]
+                for lag in lags:
+                    n = random.choice([steps + 1, steps + 2, 2 * steps + 3, 12, 20])
+                    base = [random.randint(-9, 9) for _ in range(n)]
+                    sigs = []
+                    for k in range(nsig):
+                        if k == master:
+                            sigs.append(list(base))
+                        else:
+                            kind = random.random()
+                            if kind < 0.7:
+                                sigs.append(shifted(base, lag if k == (master + 1) % nsig else random.choice(lags)))
+                            elif kind < 0.85:
+                                sigs.append([random.randint(-2, 2) for _ in range(n)])     # unrelated: ties / scan order
+                            else:
+                                sigs.append([random.choice([0, 1]) for _ in range(n)])
+                    add_case_tm(b, sigs, master, steps)
+    # ragged / degenerate clusters
+    for rep in range(120):
+        nsig = random.choice([1, 2, 3, 4])
+        lens = [random.choice([0, 1, 2, 3, 5, 6, 9]) for _ in range(nsig)]
+        sigs = [[random.randint(-4, 4) for _ in range(m)] for m in lens]
+        add_case_tm(b, sigs, random.randrange(nsig), random.choice([0, 1, 2, 3, 4]))
+    total += b.run("time_match")
+
+    # combine_at_angle / rotated degrees
+    b = Batch()
+    for angle in (0, 90, 180, 270, 30, 45, 60, 123.5, -20, 400):
+        for (ln, lw) in [(4, 4), (1, 1), (1, 3), (3, 1), (2, 3), (5, 5)]:
+            ns = dyadic(ln)
+            we = dyadic(lw)
+            c = np.cos(np.radians(angle))
+            sn = np.sin(np.radians(angle))
+            line = "combine|%s|%s|%s|%s" % (srat(c), srat(sn), srats(ns), srats(we))
+            try:
+                sig = eqsig.multiple.combine_at_angle(eqsig.AccSignal(np.array(ns), 0.5), eqsig.AccSignal(np.array(we), 0.5), angle)
+                b.add(line, expect_smart([[fr(x) for x in sig.values]], 1e-15))
+            except Exception as e:
+                b.add(line, expect_err(errkind(e)))
+    for off in (0, 0.0, 10, 30.5, 90, 180, 200, 359, 360, 400, -10, -45.25, -200, 725):
+        for points in (1, 2, 3, 4, 5, 7, 10, 19, 100):
+            ns = eqsig.AccSignal(np.array([1.0, 2.0, 0.5]), 0.5)
+            we = eqsig.AccSignal(np.array([0.5, -1.0, 2.0]), 0.5)
+            deg, vals = eqsig.multiple.compute_rotated(ns, we, angle_off_ns=off, func=lambda s_: 1.0, points=points)
+            assert len(vals) == points
+            b.add("rotated_degrees|%s|%d" % (srat(off), points), expect_smart([[fr(x) for x in deg]], 1e-12))
+    total += b.run("combine/rotated_degrees")
+    return total
+
+
+def add_case_tm(b, sigs, master, steps):
+    line = "time_match|%d|%d|%s" % (master, steps, ssigs(sigs))
+    try:
+        cl = eqsig.Cluster([np.array(x, dtype=float) for x in sigs], 0.5, master_index=master)
+        lag = cl.time_match(steps=steps)
+        out = [cl.values_by_index(i) for i in range(len(sigs))]
+        b.add(line, expect_signals(out, extra=str(int(lag)), smart=False))
+    except Exception as e:
+        b.add(line, expect_err(errkind(e)))
+
+
+SECTIONS = {"single": sec_single, "multiple": sec_multiple}
 
 if __name__ == "__main__":
     names = sys.argv[1:] or list(SECTIONS)
